@@ -455,6 +455,8 @@ pub struct Runner {
     pub flushes: u32,
     pub compactions: u32,
     pub bg_flushes: u32,
+    /// known-defect site the step in progress is predicted to execute (used when it never returns)
+    pub predicted_site: Option<String>,
 }
 
 fn cell_is_null(c: &Sx) -> bool {
@@ -507,6 +509,7 @@ impl Runner {
             flushes: 0,
             compactions: 0,
             bg_flushes: 0,
+            predicted_site: None,
         }
     }
 
@@ -971,7 +974,16 @@ impl Runner {
                 }
             }
             "flush" => {
+                // a flush that never returns cannot report its events: with factor 0 every table is
+                // recompacted, so the known-defect site F3 is predictable beforehand
+                if self.opt("combine", 4) == 0 && self.restarts > 0 {
+                    let untouched = self.created.iter().any(|t| !self.cat_touched.contains(&format!("_meta_columns_{}", t)));
+                    if untouched {
+                        self.predicted_site = Some("F3".into());
+                    }
+                }
                 self.req(lst(vec![a("flush")]), "flush")?;
+                self.predicted_site = None;
             }
             "evict" => {
                 self.req(lst(vec![a("evict")]), "evict")?;
@@ -1118,7 +1130,15 @@ pub fn run_history(input: &Sx) -> Vec<Outcome> {
                 a(r.known_hit.as_deref().unwrap_or("none")),
             ])),
             oracle: Some(v.msg.clone()),
-            signature: Some(format!("{}{}", v.sig, r.known_hit.as_ref().map(|k| format!(":site-{}", k)).unwrap_or_default())),
+            signature: Some(format!(
+                "{}{}",
+                v.sig,
+                match (&r.known_hit, &r.predicted_site) {
+                    (Some(k), _) => format!(":site-{}", k),
+                    (None, Some(k)) => format!(":site-{}", k),
+                    _ => String::new(),
+                }
+            )),
             nontrivial,
         });
     }
